@@ -41,7 +41,7 @@ STAT_LINES = ('matching', 'size', 'cost', 'cost_sq', 'degree', 'profile', 'max_l
 
 
 def budget(tier):
-    return 800 if tier == 'quick' else 8000
+    return 800 if tier == 'quick' else 25000
 
 
 @st.composite
